@@ -133,8 +133,8 @@ func applyDialect(text []byte, d string, seed uint64) []byte {
 				continue
 			}
 			eq := strings.Index(t, "=\"")
-			if eq < 0 {
-				continue
+			if eq < 0 || eq+2 > len(t)-1 {
+				continue // no value on this line (a value that starts with a line break)
 			}
 			name, val := t[len(qi)+1:eq], t[eq+2:len(t)-1]
 			if val == "" || strings.Trim(val, "0123456789") != "" {
@@ -329,15 +329,18 @@ func errSig(err error) string {
 	return s
 }
 
-// flagFormOnly reports whether two GenBank texts differ in nothing but the
-// form of empty qualifiers of names gts has no built-in type for: a bare flag
-// (/name) on one side, an empty quoted value (/name="") on the other.
-func flagFormOnly(a, b []byte) bool {
+// learntFormOnly reports whether two GenBank texts differ in nothing but the
+// form in which qualifiers of names gts has no built-in type for are written,
+// and which form it is: "flag" - an empty value as a bare flag (/name) on one
+// side and as an empty quoted value (/name="") on the other; "literal" - the
+// same one-line value without a double quote in it as /name=value on one side
+// and /name="value" on the other. Every value is the same on both sides.
+func learntFormOnly(a, b []byte) string {
 	la, lb := strings.Split(string(a), "\n"), strings.Split(string(b), "\n")
 	if len(la) != len(lb) {
-		return false
+		return ""
 	}
-	diff := false
+	kind := ""
 	for i := range la {
 		if la[i] == lb[i] {
 			continue
@@ -346,12 +349,25 @@ func flagFormOnly(a, b []byte) bool {
 		if len(y) < len(x) {
 			x, y = y, x
 		}
-		if !strings.HasPrefix(x, "/") || y != x+"=\"\"" || qualKind(strings.TrimPrefix(x, "/")) != "unknown-name" {
-			return false
+		if !strings.HasPrefix(x, "/") {
+			return ""
 		}
-		diff = true
+		name := strings.TrimPrefix(strings.SplitN(x, "=", 2)[0], "/")
+		if qualKind(name) != "unknown-name" {
+			return ""
+		}
+		switch {
+		case x == "/"+name && y == x+"=\"\"":
+			if kind == "" {
+				kind = "flag"
+			}
+		case strings.HasPrefix(x, "/"+name+"=") && !strings.Contains(x, "\"") && y == "/"+name+"=\""+strings.TrimPrefix(x, "/"+name+"=")+"\"":
+			kind = "literal"
+		default:
+			return ""
+		}
 	}
-	return diff
+	return kind
 }
 
 // firstDiffField names the line (its leading keyword) at which two GenBank
@@ -614,8 +630,8 @@ func (x *c01Run) exec() {
 		}
 		res.Evaluations++
 		if !bytes.Equal(out, outs[i]) {
-			if flagFormOnly(outs[i], out) {
-				x.violate("fixed-point", "learnt-flag-form", fmt.Sprintf("record %d: the second output differs from the first only in writing an empty qualifier of a name without built-in type as /name in one and /name=\"\" in the other (the form depends on what the writing process had read before)", i))
+			if form := learntFormOnly(outs[i], out); form != "" {
+				x.violate("fixed-point", "learnt-"+form+"-form", fmt.Sprintf("record %d: the second output differs from the first only in the form of qualifiers of a name without built-in type: /name versus /name=\"\" (flag), /name=value versus /name=\"value\" (literal); every value is the same (the form depends on what the writing process had read before)", i))
 			} else {
 				x.violate("fixed-point", firstDiffField(outs[i], out), fmt.Sprintf("record %d: write-read-write differs from the first output at field %s", i, firstDiffField(outs[i], out)))
 			}
@@ -647,8 +663,8 @@ func (x *c01Run) exec() {
 		for k := range idx {
 			out, err, pnc := writeSeq(r3.Seqs[k], seqio.GenBankFile)
 			if pnc != "" || err != nil || !bytes.Equal(out, outs2[k]) {
-				if pnc == "" && err == nil && flagFormOnly(outs2[k], out) {
-					x.violate("fixed-point", "learnt-flag-form", fmt.Sprintf("record %d: third write differs from second only in the form of an empty qualifier of a name without built-in type", idx[k]))
+				if form := learntFormOnly(outs2[k], out); pnc == "" && err == nil && form != "" {
+					x.violate("fixed-point", "learnt-"+form+"-form", fmt.Sprintf("record %d: third write differs from second only in the form of qualifiers of a name without built-in type", idx[k]))
 				} else {
 					x.violate("fixed-point", "third-generation:"+firstDiffField(outs2[k], out), fmt.Sprintf("record %d: third write differs from second (err=%v)", idx[k], err))
 				}
